@@ -139,7 +139,10 @@ def r3_sections_monotone(chk):
         chk.ob('C18.R3', 'genIndex/list-created-only-when-absent %s' % norm(t_)[:40], ok_i, where(mod, s_),
                'an existing module list (from the earlier index or another module) is replaced by an empty one '
                'unless the store is under `if %s`' % want)
-    chk.ob('C18.R3', 'genIndex/list-creations-found', len(inits) == 4, where(mod, lp), '%d found' % len(inits))
+    sd = [c for c in apps if isinstance(c.func.value, ast.Call) and isinstance(c.func.value.func, ast.Attribute) and
+          c.func.value.func.attr == 'setdefault' and len(c.func.value.args) == 2 and norm(c.func.value.args[1]) == '[]']
+    chk.ob('C18.R3', 'genIndex/every-section-creates-missing-lists', len(inits) + len(sd) == 4, where(mod, lp),
+           '%d `if k not in d: d[k] = []` and %d `d.setdefault(k, []).append(..)` forms for 4 sections' % (len(inits), len(sd)))
     chk.ob('C18.R3', 'genIndex/appends-module', ok, where(mod, lp), 'each section must append the module name')
     # monotone: no deletion / rebinding of sections other than oids
     for n in walk_no_nested(fn):
